@@ -1513,12 +1513,16 @@ func (c *Conn) ReadFrom(p []byte) (n int, addr net.Addr, err error) {
 	defer c.in.Unlock()
 
 	for {
-		if err = c.readDatagram(); err != nil {
-			return 0, nil, err
-		}
-
+		// 一个数据报可以携带多条记录（RFC 6347 §4.1.1）：先处理完当前数据报中剩余的记录，
+		// 再读取下一个数据报；否则排在一条被丢弃的记录之后的真实记录会随之丢失。
 		if len(c.rawInputBuf) < recordHeaderLen {
-			continue
+			if err = c.readDatagram(); err != nil {
+				return 0, nil, err
+			}
+			if len(c.rawInputBuf) < recordHeaderLen {
+				c.rawInputBuf = nil
+				continue
+			}
 		}
 
 		hdr := c.rawInputBuf[:recordHeaderLen]
@@ -1529,6 +1533,8 @@ func (c *Conn) ReadFrom(p []byte) (n int, addr net.Addr, err error) {
 		recLen := int(hdr[11])<<8 | int(hdr[12])
 
 		if recordHeaderLen+recLen > len(c.rawInputBuf) {
+			// 长度字段超出数据报：其后无法再定界，丢弃该数据报的剩余部分
+			c.rawInputBuf = nil
 			continue
 		}
 
@@ -1542,12 +1548,15 @@ func (c *Conn) ReadFrom(p []byte) (n int, addr net.Addr, err error) {
 		c.in.seq[6] = hdr[9]
 		c.in.seq[7] = hdr[10]
 
+		// 取出本条记录，c.rawInputBuf 指向数据报中其后的记录
+		record := c.rawInputBuf[: recordHeaderLen+recLen : recordHeaderLen+recLen]
+		c.rawInputBuf = c.rawInputBuf[recordHeaderLen+recLen:]
+
 		// 其它 epoch 的记录不属于当前密钥：直接丢弃（不解密）
 		if epoch != c.readEpoch {
 			continue
 		}
 
-		record := c.rawInputBuf[:recordHeaderLen+recLen]
 		plaintext, actualTyp, err := c.in.decrypt(record)
 		if err != nil {
 			continue
